@@ -235,11 +235,41 @@ pub fn rmatch(t: &A, w: &[u8]) -> bool {
     Matcher::new(w).matches(t)
 }
 
+pub const COST_CAP: u64 = 3_000;
+
+/// rough work estimate (see model::TermInfo::cost), memoised by node address
+pub fn cost(t: &A, memo: &mut HashMap<usize, u64>) -> u64 {
+    let key = Arc::as_ptr(t) as usize;
+    if let Some(&c) = memo.get(&key) {
+        return c;
+    }
+    let c = match &**t {
+        Ast::Empty | Ast::Eps | Ast::Cells(..) => 1,
+        Ast::Concat(a, b) => cost(a, memo).saturating_add(cost(b, memo)),
+        Ast::Loop(e, lo, hi) => cost(e, memo)
+            .saturating_mul(hi.unwrap_or(*lo).max(*lo).max(1) as u64)
+            .saturating_add(1),
+        Ast::Compl(a) | Ast::Quot(a, _) => cost(a, memo).saturating_add(1),
+        Ast::Union(v) | Ast::Inter(v) => v
+            .iter()
+            .fold(1u64, |acc, x| acc.saturating_add(cost(x, memo))),
+    };
+    memo.insert(key, c);
+    c
+}
+
 /// R-dfa of an Ast (memoised by node address by the caller if wanted). None = over the caps.
 pub fn to_dfa(t: &A, k: usize, memo: &mut HashMap<usize, Option<Arc<Dfa>>>) -> Option<Arc<Dfa>> {
     let key = Arc::as_ptr(t) as usize;
     if let Some(r) = memo.get(&key) {
         return r.clone();
+    }
+    {
+        let mut cm: HashMap<usize, u64> = HashMap::new();
+        if cost(t, &mut cm) > COST_CAP {
+            memo.insert(key, None);
+            return None;
+        }
     }
     let r: Option<Dfa> = (|| match &**t {
         Ast::Empty => Some(Dfa::empty(k)),
